@@ -270,6 +270,11 @@ def exCross : NewSsi :=
 theorem exCross_wf : exCross.WF := by
   constructor <;> decide
 
+example : exCross.ExtOK := by
+  constructor <;> simp [exCross, KeyChars, NoDelim, isDelim]
+
+example : exCross.Distinct := by unfold NewSsi.Distinct; decide
+
 /-- KNOWN FINDING `C06:cross-class-duplicate` (counter-example to the full-strength statement "Write succeeds iff
     ALL keys are distinct" and to `findName_alias` without its hypothesis `hnp`): an alias equal to a primary key is
     accepted by `Write`, and looking it up returns the primary key's own record, not the alias target's. -/
